@@ -16,7 +16,8 @@ implementation must both reject (any exception = rejected); most requests are SE
 caller-owned convention objects (list or tuple of labels, component array) that must come back unchanged, each
 result compared with the model ("right" then "left", twice "left", ...); the overlap matrix of one spherical shell
 (implementation only) must be the identity to 1e-8; once per run the generic-field model `Model/Spherical.v`
-(command 4, used by the integral checks) is compared with the exact model for l <= 4."""
+(command 4, used by the integral checks) is compared with the exact model for l <= 4.  The component array is
+handed over in every signed integer width (int8 .. int64; key "cart_dtype") and as plain Python sequences."""
 import itertools
 import json
 import math
@@ -40,7 +41,13 @@ RULE = ("generate_transformation vs exact r*sqrt(q) model: default conventions f
         "streams, every 5th l=3 sample): ONE labels object (a list, or a tuple when as_tuple) and ONE component array "
         "are handed to a sequence of 2-3 calls ('right','left','left' / 'left','left','right' / ...); after every call, "
         "returning or raising, the objects must be element-wise what the caller built, and EVERY result of the sequence "
-        "is compared with the exact model for its side. A case is non-trivial "
+        "is compared with the exact model for its side. DTYPE of the caller's component array: stream 'dtype-sweep' = the "
+        "default convention for every l in 0..10 with cartesian_order as int8 / int16 / int32 / int64 ndarray and as a "
+        "plain list of lists / list of tuples; the random-convention stream (l 3..10) cycles int8, int16, int32, int64, "
+        "list, tuples over its cases (components never exceed 10; unsigned arrays are not generated: 2a-1 wraps for a=0 "
+        "and HEAD returns NaN for them at every l); an ndarray of any signed width must give the model's matrix, a plain "
+        "Python sequence may be rejected (documented TypeError) or must give the model's matrix; evidence counters "
+        "'cartesian_order as <dtype>'. A case is non-trivial "
         "when l>=1 (more than one function) or when it belongs to the malformed stream; distinct by the hash of the "
         "exact request; a block of permutations counts as one distinct case")
 ASSUMPTIONS = [
